@@ -143,13 +143,22 @@ def build_consistent(r, case, depth=3, nfiles=None, allow_multi=True, dups=True)
             data = put(p, lines)
             g = governing(d)           # the Manifest of the nearest ancestor directory
             rel = os.path.relpath(p, g) if g else p
-            manifests[g][1].append(ET.entry_line('MANIFEST', rel, data, r.sample(GOOD_HASHES, r.randint(0, 2))))
+            hs1 = r.sample(GOOD_HASHES, r.randint(0, 2))
+            manifests[g][1].append(ET.entry_line('MANIFEST', rel, data, hs1))
             # now and then a second reference to the same sub-Manifest: the same line again, or from the top-level Manifest
             if dups and r.random() < 0.1:
                 g2 = r.choice([g, ''])
                 rel2 = os.path.relpath(p, g2) if g2 else p
                 manifests[g2][1].append(ET.entry_line('MANIFEST', rel2, data, r.sample(GOOD_HASHES, r.randint(0, 2))))
                 case.meta.setdefault('double_references', []).append(p)
+            elif dups and g in extra and r.random() < 0.7:
+                # ... or from the second Manifest of the governing directory, with hash names the first reference does not use:
+                # right (compatible) or wrong (the chain is broken although the first reference matches)
+                others = [h for h in GOOD_HASHES if h not in hs1]
+                wrong = r.random() < 0.5
+                d2 = (bytes([data[0] ^ 1]) + data[1:]) if (wrong and data) else data
+                extra[g][1].append(ET.entry_line('MANIFEST', rel, d2, r.sample(others, r.randint(1, 2))))
+                case.meta.setdefault('double_references', []).append(p + (':wrong' if d2 != data else ':right'))
     put('Manifest', manifests[''][1])
     case.tree = t
     case.meta.update(dirs=dirs, files=sorted(files), manifests=sorted(written), ignored=sorted(ignored))
@@ -259,9 +268,16 @@ def mutate_(r, case, files, written, kind=None):
         t.nodes[container]['parent'] = container
         x = t.mkdir(container, 2)
         t.link(container, 'xd', x)
-        shape = r.choice(['file', 'file', 'empty', 'subdir', 'hidden'])
+        shape = r.choice(['file', 'file', 'file', 'empty', 'subdir', 'hidden'])
         if shape == 'file':
             t.link(x, 'inner', t.mkfile(2, b'on other device'))
+            top = t.lookup('Manifest')
+            if top is not None and r.random() < 0.7:
+                # ... with an entry of its own that matches it
+                node = t.nodes[top]
+                line = ET.entry_line('DATA', (d + '/' if d else '') + 'xd/inner', b'on other device', ['SHA1'])
+                node['data'] = node['data'] + (b'' if node['data'].endswith(b'\n') or not node['data'] else b'\n') + line.encode('utf8') + b'\n'
+                node['size'] = len(node['data'])
         elif shape == 'subdir':
             y = t.mkdir(x, 2)
             t.link(x, 'deeper', y)
